@@ -23,7 +23,7 @@ import (
 func init() {
 	register(stream{
 		name: "did",
-		rule: "keys of Ed25519, secp256k1 (native and ECDSA-typed), P-256, P-384, P-521 and RSA: FromPubKey → String → Parse → PubKey must give back an equal DID and an equal key, and DIDs of distinct keys differ; the same calls from 8 goroutines at once on distinct keys of one algorithm must agree with the sequential results (a sampled schedule test); did:key strings carrying alternative encodings of the same key material (uncompressed and hybrid points, the other parity byte, off-curve x coordinates, wrong lengths, non-minimal or trailing DER, non-minimal varints, unsupported and unknown multicodec codes, other multibase prefixes, invalid base58 characters, missing prefix); the per-codec unmarshalling verdict is computed by the harness with the crypto libraries directly and given to the model as an oracle. Non-trivial = strings that pass the prefix test. Distinct = distinct protocol lines.",
+		rule: "keys of Ed25519, secp256k1 (native and ECDSA-typed), P-256, P-384, P-521 and RSA: FromPubKey → String → Parse → PubKey must give back an equal DID and an equal key, and DIDs of distinct keys differ; the same calls from 8 goroutines at once on distinct keys of one algorithm must agree with the sequential results (a sampled schedule test); did:key strings carrying alternative encodings of the same key material (uncompressed and hybrid points, the other parity byte, off-curve x coordinates, wrong lengths, non-minimal or trailing DER, non-minimal varints, unsupported and unknown multicodec codes, other multibase prefixes, invalid base58 characters, missing prefix); the per-codec unmarshalling verdict is computed by the harness with the crypto libraries directly and given to the model as an oracle. Added later: every key extraction is repeated (same value, re-parsed value, ToPubKey) and must answer alike; RSA-3072 and RSA-4096 identifiers (fixed public keys); ECDSA-typed secp256k1 keys must come back as the same POINT; the bytes of an extracted key are overwritten (DID, text and later extractions unchanged); key extraction from the undefined DID, then from a valid one. Non-trivial = strings that pass the prefix test. Distinct = distinct protocol lines.",
 		run:  runDidStream,
 		eval: evalDid,
 		cmp: func(line, g, m string) string {
